@@ -149,6 +149,16 @@ let handle (line:string) : string =
        | ROk (e', p') -> "1 " ^ str_path p' ^ " " ^ str_expr e'
        | RRaises x -> "1 EXC " ^ str_rexn x)
     else "0"
+  | "PLAN" :: name :: opt :: pth :: ws ->
+    (* object-level plan of a rewrite: attachment path, linear flag, result tree, provenance of every result node in pre-order *)
+    let e = expr_of ws in
+    let r = rule_of name opt in
+    let p = path_of pth in
+    (match plan_result e p r with
+     | Some (((q, e'), pv), lin) ->
+       "OK " ^ str_path q ^ " " ^ (if lin then "1" else "0") ^ " " ^ str_expr e' ^ " ; " ^
+         String.concat " " (List.map (function Some o -> str_path o | None -> "-") pv)
+     | None -> "NONE")
   | "FIND" :: name :: opt :: ws ->
     let e = expr_of ws in
     let r = rule_of name opt in
